@@ -476,8 +476,15 @@ psgstrf_WorkInit(int_t n, int_t panel_size, int_t **iworkptr, float **dworkptr)
 #pragma omp critical ( STACK_LOCK )
 #endif
               {
-	        stack.top2 -= extra;
-	        stack.used += extra;
+	        if ( StackFull(extra) ) {
+	            /* no room left for the alignment padding */
+	            stack.top2 += dsize;
+	            stack.used -= dsize;
+	            *dworkptr = NULL;
+	        } else {
+	            stack.top2 -= extra;
+	            stack.used += extra;
+	        }
 	      }
 #if ( MACH==PTHREAD ) /* Use pthread ... */
         pthread_mutex_unlock( &stack.lock );
@@ -696,8 +703,16 @@ void
 #pragma omp critical ( STACK_LOCK )
 #endif
               {
-                stack.top1 += extra;
-                stack.used += extra;
+                if ( StackFull(extra) ) {
+                    /* no room left for the alignment padding: the aligned
+                       array would run past the free space */
+                    stack.top1 -= new_len * lword;
+                    stack.used -= new_len * lword;
+                    new_mem = NULL;
+                } else {
+                    stack.top1 += extra;
+                    stack.used += extra;
+                }
               }
 #if ( MACH==PTHREAD ) /* Use pthread ... */
       pthread_mutex_unlock( &stack.lock );
